@@ -143,39 +143,63 @@ def errOnlyLast : List Rec → Bool
   | [_] => true
   | r :: r' :: rest => r.tree.isSome && errOnlyLast (r' :: rest)
 
-/-- the `for e == nil` loop of `ReadMultiTrees`, FORMAT_NEWICK: `line` has just been read -/
-def multiLoop (pinned : Bool) (np : List UInt8 → Res Newick.Parsed) (line : Line) (id : Nat) (he : line.err = false) : ROut :=
-  match np line.text with
+/-- what the inner loop over one line leaves: the records sent, whether it stopped on a parse error, the next id -/
+structure LineOut where
+  recs : List Rec
+  failed : Bool
+  next : Nat
+
+/-- `for more := true; more; more = parser.More() { … parser.Parse() … }` (3850fd2): ONE parser reads every
+    tree of the line; a parse error sends its record and ends the loop.  Well-founded on the text left:
+    a successful `Parse` has consumed its `;`. -/
+def lineLoop (cs : List Char) (id : Nat) : Res LineOut :=
+  match h : Newick.parseChars cs with
   | .panic m => .panic m
-  | .err _ => .ok [⟨id, none⟩]
+  | .err _ => .ok ⟨[⟨id, none⟩], true, id⟩
   | .ok p =>
-    match h : readUntilSemiColon pinned line.rest [] with
-    | .panic m => .panic m
-    | .err m => .err m
-    | .ok next =>
-      if hn : next.err = false then
-        match multiLoop pinned np next (id + 1) hn with
-        | .ok rs => .ok (⟨id, some (p.tree, p.nonfinite)⟩ :: rs)
-        | o => o
-      else
-        -- after the loop: `if id > 0 && e != nil && strings.TrimSpace(line) != ""` (7ce7b93): text left
-        -- after the last ';' is reported as an error record with the next id
-        .ok (⟨id, some (p.tree, p.nonfinite)⟩ ::
-              (if (decodeLossy next.text).all Newick.goIsSpace then [] else [⟨id + 1, none⟩]))
+    if Newick.more p.rest then
+      match lineLoop p.rest (id + 1) with
+      | .ok o => .ok ⟨⟨id, some (p.tree, p.nonfinite)⟩ :: o.recs, o.failed, o.next⟩
+      | .err m => .err m
+      | .panic m => .panic m
+    else .ok ⟨[⟨id, some (p.tree, p.nonfinite)⟩], false, id + 1⟩
+termination_by cs.length
+decreasing_by exact Newick.run_rest_lt {} cs p h
+
+/-- the `for e == nil` loop of `ReadMultiTrees`, FORMAT_NEWICK: `line` has just been read -/
+def multiLoop (pinned : Bool) (line : Line) (id : Nat) (he : line.err = false) : ROut :=
+  match lineLoop (decodeLossy line.text) id with
+  | .panic m => .panic m
+  | .err m => .err m
+  | .ok o =>
+    if o.failed then .ok o.recs       -- `if err != nil { break }`
+    else
+      match h : readUntilSemiColon pinned line.rest [] with
+      | .panic m => .panic m
+      | .err m => .err m
+      | .ok next =>
+        if hn : next.err = false then
+          match multiLoop pinned next o.next hn with
+          | .ok rs => .ok (o.recs ++ rs)
+          | x => x
+        else
+          -- after the loop: `if id > 0 && e != nil && strings.TrimSpace(line) != ""` (7ce7b93): text left
+          -- after the last ';' is reported as an error record with the next id
+          .ok (o.recs ++ (if (decodeLossy next.text).all Newick.goIsSpace then [] else [⟨o.next, none⟩]))
 termination_by line.rest.length
 decreasing_by exact readUntilSemiColon_rest pinned _ _ _ h hn
 
 /-- `utils.ReadMultiTrees(reader, FORMAT_NEWICK)` as the list of records received from the channel;
     a panic in the goroutine kills the process. -/
-def multiNewickWith (pinned : Bool) (np : List UInt8 → Res Newick.Parsed) (chunks : List Chunk) : ROut :=
+def multiNewickWith (pinned : Bool) (chunks : List Chunk) : ROut :=
   match readUntilSemiColon pinned chunks [] with
   | .panic m => .panic m
   | .err m => .err m
   | .ok line =>
-    if he : line.err = false then multiLoop pinned np line 0 he
+    if he : line.err = false then multiLoop pinned line 0 he
     else .ok [⟨0, none⟩]
 
-def multiNewick (chunks : List Chunk) : ROut := multiNewickWith false Newick.parse chunks
+def multiNewick (chunks : List Chunk) : ROut := multiNewickWith false chunks
 
 /- `bufio.Reader.ReadLine` with a buffer of `n` bytes over an in-memory reader (trusted library,
    modelled for the correspondence only). -/
@@ -227,6 +251,7 @@ def nexusMulti (b : List UInt8) : ROut :=
   | .hang => .hang
   | .panic m => .panic m
   | .err _ => .ok [⟨0, none⟩]
+  | .ok [] => .ok [⟨0, none⟩]     -- 78cdd07: a document without any tree is reported ("No tree in the input Nexus file")
   | .ok ts => .ok (ofNTrees ts 0)
 
 /-- `newick.NewParser(r).Parse()` -/
@@ -248,52 +273,92 @@ inductive Clade where
   | mk (name sci code : String) (len conf : Option Rat) (kids : List Clade)
   deriving Inhabited
 
-/- `phyloxml.cladeToTree(c, t, parent, nedges, nnodes)` for a clade below `parent`: the node,
-   the data of the branch above it, the next branch id; `none` = "One tip has no name"
-   (the conversion stops there). -/
+/-- `*(p)` for a `*float64`: dereferencing nil panics -/
+def derefF (p : Option Rat) : Res Rat :=
+  match p with
+  | some v => .ok v
+  | none => .panic "invalid memory address or nil pointer dereference"
+
+/-- variants of `phyloxml.cladeToTree` for the negative theorem: `confUnchecked` drops the
+    `if c.Confidence != nil` test (own breakage B4 of round 1) -/
+structure PxPins where
+  confUnchecked : Bool := false
+
+/- `phyloxml.cladeToTree(c, t, parent, nedges, nnodes)` for a clade below `parent` (so `e` exists):
+   the node, the data of the branch above it, the next branch id.  The two pointer fields are
+   dereferenced where the Go code dereferences them (`*(c.BranchLength)`, `*(c.Confidence)`), under the
+   tests the code makes; `err` = "One tip has no name" (the conversion stops there). -/
 mutual
-def pxClade : Clade → Nat → Option (EdgeD × T × Nat)
+def pxClade (pins : PxPins) : Clade → Nat → Res (EdgeD × T × Nat)
   | .mk name sci code len conf kids, nedges =>
-    let e : EdgeD := { EdgeD.blank with id := nedges,
-                                        len := (match len with | some l => l | none => NIL),
-                                        sup := (match kids, conf with | _ :: _, some c => c | _, _ => NIL) }
-    let nm := if name != "" then name else if sci != "" then sci else code
-    match pxKids kids (nedges + 1) with
-    | none => none
-    | some (ks, n) => if kids.isEmpty && nm == "" then none else some (e, .node ⟨nm, []⟩ 0 ks, n)
-def pxKids : List Clade → Nat → Option (Kids × Nat)
-  | [], n => some ([], n)
+    -- if c.BranchLength != nil { e.SetLength(*(c.BranchLength)) }
+    match (if len.isSome then derefF len else .ok NIL) with
+    | .panic m => .panic m
+    | .err m => .err m
+    | .ok l =>
+      -- if len(c.Clades) > 0 { if c.Confidence != nil { e.SetSupport(*(c.Confidence)) } }
+      match (if !kids.isEmpty && (conf.isSome || pins.confUnchecked) then derefF conf else .ok NIL) with
+      | .panic m => .panic m
+      | .err m => .err m
+      | .ok sp =>
+        let e : EdgeD := { EdgeD.blank with id := nedges, len := l, sup := sp }
+        let nm := if name != "" then name else if sci != "" then sci else code
+        match pxKids pins kids (nedges + 1) with
+        | .panic m => .panic m
+        | .err m => .err m
+        | .ok (ks, n) =>
+          if kids.isEmpty && nm == "" then .err "One tip has no name" else .ok (e, .node ⟨nm, []⟩ 0 ks, n)
+def pxKids (pins : PxPins) : List Clade → Nat → Res (Kids × Nat)
+  | [], n => .ok ([], n)
   | c :: r, n =>
-    match pxClade c n with
-    | none => none
-    | some (e, t, n') =>
-      match pxKids r n' with
-      | none => none
-      | some (ks, n'') => some ((e, t) :: ks, n'')
+    match pxClade pins c n with
+    | .panic m => .panic m
+    | .err m => .err m
+    | .ok (e, t, n') =>
+      match pxKids pins r n' with
+      | .panic m => .panic m
+      | .err m => .err m
+      | .ok (ks, n'') => .ok ((e, t) :: ks, n'')
 end
 
-/-- `phylogenyToTree`: the root clade (its own branch data are ignored) -/
-def pxTree : Clade → Option T
+/-- `phylogenyToTree`: the root clade (`parent == nil`: its own branch data are not read) -/
+def pxTreeWith (pins : PxPins) : Clade → Res T
   | .mk name sci code _ _ kids =>
     let nm := if name != "" then name else if sci != "" then sci else code
-    match pxKids kids 0 with
-    | none => none
-    | some (ks, _) => if kids.isEmpty && nm == "" then none else some (.node ⟨nm, []⟩ 0 ks)
+    match pxKids pins kids 0 with
+    | .panic m => .panic m
+    | .err m => .err m
+    | .ok (ks, _) => if kids.isEmpty && nm == "" then .err "One tip has no name" else .ok (.node ⟨nm, []⟩ 0 ks)
+
+def pxTree (c : Clade) : Res T := pxTreeWith {} c
 
 /-- `ReadTreeReader(FORMAT_PHYLOXML)` on the decoded phylogenies -/
 def phyloxmlOne (ps : List Clade) : ROut :=
   match ps with
   | [] => .err "No tree in the input PhyloXML file"
   | p :: _ => match pxTree p with
-    | none => .err "One tip has no name"
-    | some t => .ok [⟨0, some (t, false)⟩]
+    | .panic m => .panic m
+    | .err m => .err m
+    | .ok t => .ok [⟨0, some (t, false)⟩]
 
-def pxRecs : List Clade → Nat → List Rec
-  | [], _ => []
-  | p :: r, id => ⟨id, (pxTree p).map (·, false)⟩ :: pxRecs r (id + 1)
+/-- `IterateTrees`: one record per phylogeny; a panic in the goroutine kills the process -/
+def pxRecs : List Clade → Nat → Res (List Rec)
+  | [], _ => .ok []
+  | p :: r, id =>
+    match pxTree p with
+    | .panic m => .panic m
+    | .err _ => (match pxRecs r (id + 1) with | .ok rs => .ok (⟨id, none⟩ :: rs) | o => o)
+    | .ok t => (match pxRecs r (id + 1) with | .ok rs => .ok (⟨id, some (t, false)⟩ :: rs) | o => o)
 
 /-- `ReadMultiTrees(FORMAT_PHYLOXML)` on the decoded phylogenies -/
-def phyloxmlMulti (ps : List Clade) : ROut := .ok (pxRecs ps 0)
+def phyloxmlMulti (ps : List Clade) : ROut :=
+  match ps with
+  | [] => .ok [⟨0, none⟩]          -- 78cdd07: "No tree in the input PhyloXML file"
+  | _ :: _ =>
+  match pxRecs ps 0 with
+  | .ok rs => .ok rs
+  | .err m => .err m
+  | .panic m => .panic m
 
 /-- a decoded `nextstrain.NsNode`: name, divergence, the comment `cladeToTree` builds from the
     annotations (computed by the harness with the code's own string operations), children -/
